@@ -69,6 +69,8 @@ def scenarios(ctx):
                 if quick and cname != "healthy" and (bname == "multi" or mname == "acks0" or cname == "other-down"):
                     continue
                 p = dict(base_f, **m, **b, baseline="app", program=prog)
+                if mode and mname == "idem" and cname != "other-down":
+                    p["k_mid"] = False  # every execution runs into the known finding (24 virtual seconds of retries): quiescent placements only
                 if mode:
                     p["mode_after"] = [2, mode]  # in force once the first two records are accepted (metadata known, batches pending)
                 out.append((f"producer-{mname}-{bname}-{cname}", scen_producer.make, p, K if quick else KT))
